@@ -411,7 +411,9 @@ def c01(tier, seed):
 
 def c02(tier, seed):
     tp = tier_params(tier)
-    return lex_family('C02', tier, seed, relevant={'C02'}, select=sel_for(tier, 'unicode'), name='lex', **tp)
+    # long runs: consumption and error-span obligations where block-wise loops (8/16-byte chunks) come into play
+    return lex_family('C02', tier, seed, relevant={'C02'}, select=sel_for(tier, 'unicode'), name='lex',
+                      long_defs=(('long_loop', 24), ('neg_loop_bytes', 20)) if tier == 'quick' else LONG_THOROUGH, **tp)
 
 
 def with_rejects(sel, *tags):
@@ -834,6 +836,10 @@ def partial_post(P, d, f, r, info):
         nn = [x for x in native if x[0] == 'none']
         info['confirmation'] = 'native partial lexer returned None at %s' % (nn[0][1:] if nn else None)
         return bool(nn) and nn[0][1] < len(data) + 1
+    if 'span after None' in f['what']:
+        nn = [x for x in native if x[0] == 'none']
+        info['confirmation'] = 'native partial lexer reports span %s after None' % (nn[0][1:3] if nn else None,)
+        return bool(nn) and nn[0][1] != nn[0][2]
     if 'committed' in f['what']:
         alphabet = sorted(set(data) | {0x20, 0x61, 0x30, 0x0a})
         import itertools as it
